@@ -205,7 +205,9 @@ namespace
                 << " allow_incomplete=" << allow << (complete ? " complete" : " INCOMPLETE") << " alpha in {1,-1,1/2,0.3,0} x {exact,rounding} alphabet"; return o.str(); });
             // a deterministic sample of the trapped executions is repeated in a forked child
             const bool validate = (dies || (any_empty && rep == 0)) && (all % 97 == 0);
-            run_product<DT, IT>(c, pop, d, bx, bd, ba, bb, rep, allow != 0, complete, validate);
+            const bool efd = (bd == 0 && rep == 0), efa = ((pop == P_DMM && ba == 0) && rep == 0), efx = (bx == 0 && rep == 0), efb = (bb == 0 && rep == 0);
+            product_case(c, efd || efa || efx || efb, dies, all, pname[pop], std::string("entry-free operand ") + pname[pop] + " " + (efd ? "d" : efa ? "a" : efx ? "this" : "b"),
+              [&]{ run_product<DT, IT>(c, pop, d, bx, bd, ba, bb, rep, allow != 0, complete, validate); });
             if(bd != 0 && bb != 0 && (pop != P_DMM || ba != 0)) c.nontrivial(verif::Hash().str("p").str(tp<DT, IT>()).pod(pop).pod(d).pod(all).pod(rep).pod(allow).get());
             c.outcome(std::string("csr/") + pname[pop] + (dies ? " must-abort" : complete ? " complete" : " incomplete-allowed"));
           }
